@@ -241,7 +241,7 @@ func c17Judge(c spec.Case, evs []spec.Event, d *Death) CaseResult {
 func init() {
 	register(&Prop{
 		ID: "C17", Level: "exploration", Race: true, TestName: "TestC17",
-		Gen: c17Gen, Batch: 60, Children: 8, PerCase: 3 * time.Second, Base: 90 * time.Second,
+		Gen: c17Gen, Batch: 12, Children: 12, PerCase: 3 * time.Second, Base: 90 * time.Second,
 		Judge: c17Judge,
 		Rule: "cases = client configuration (AutoMTLS x mux x SkipHostEnv x launch method x plugin-set layout x port range x socket group/TempDir x user Cmd.Env) x ambient host environment (clean, marker variables, host that is itself a plugin and carries PLUGIN_* variables, single inherited variable). The environment is captured as handed to a custom runner and as actually received by a real child process (which also reports its stdin's device/inode); e2e cases launch a real serving plugin from such a host. Class = (launch, ambient, AutoMTLS, mux, SkipHostEnv, e2e)",
 		Assumptions: []string{
